@@ -77,24 +77,29 @@ Fixpoint acc_digits (radix max : N) (ds : list N) (acc : N) : pres :=
 Definition parse_u16 (radix : N) (s : list N) : pres :=
   match s with
   | [] => PErr PEmpty
-  | [43] => PErr PInvalid
-  | [45] => PErr PInvalid
-  | 43 :: r => acc_digits radix 65535 r 0
-  | _ => acc_digits radix 65535 s 0
+  | c :: r =>
+      match r with
+      | [] => if (c =? 43) || (c =? 45) then PErr PInvalid else acc_digits radix 65535 s 0
+      | _ :: _ => if c =? 43 then acc_digits radix 65535 r 0 else acc_digits radix 65535 s 0
+      end
   end.
 
 (** Result as the 16-bit two's-complement pattern. *)
 Definition parse_i16 (radix : N) (s : list N) : pres :=
   match s with
   | [] => PErr PEmpty
-  | [43] => PErr PInvalid
-  | [45] => PErr PInvalid
-  | 43 :: r => acc_digits radix 32767 r 0
-  | 45 :: r => match acc_digits radix 32768 r 0 with
-               | POk m => POk ((65536 - m) mod 65536)
-               | PErr e => PErr e
-               end
-  | _ => acc_digits radix 32767 s 0
+  | c :: r =>
+      match r with
+      | [] => if (c =? 43) || (c =? 45) then PErr PInvalid else acc_digits radix 32767 s 0
+      | _ :: _ =>
+          if c =? 43 then acc_digits radix 32767 r 0
+          else if c =? 45 then
+            match acc_digits radix 32768 r 0 with
+            | POk m => POk ((65536 - m) mod 65536)
+            | PErr e => PErr e
+            end
+          else acc_digits radix 32767 s 0
+      end
   end.
 
 (* ------------------------------------------------------------------ *)
